@@ -28,7 +28,9 @@ import (
 	"errors"
 	"fmt"
 	"io"
+	"math/rand"
 	"regexp"
+	"runtime"
 	"sort"
 	"strconv"
 	"strings"
@@ -74,6 +76,7 @@ type Case struct {
 	Readers int       `json:"readers"` // kind conc*
 	Present bool      `json:"present"` // kind conc*
 	Pk      string    `json:"pk"`      // kind conc*: primary key of the row
+	Iters   int       `json:"iters"`   // kind free: operations per goroutine
 	Mutate  bool      `json:"mutate"`  // kind conc*: the leader overwrites its destination as soon as its read returns, and only
 	//                                      then do the readers that shared its flight get to consume the shared result
 	Ctx string `json:"ctx"` // kind conc*: "" (every reader's context lives) | leadercancel | leaderdeadline
@@ -116,7 +119,34 @@ type Out struct {
 	NodeOfs []map[string]int `json:"nodeofs,omitempty"` // worlds 1..
 	Obs     []OpObs          `json:"obs"`
 	Conc    *ConcObs         `json:"conc,omitempty"`
+	Race    *RaceObs         `json:"race,omitempty"`
+	Free    *FreeObs         `json:"free,omitempty"`
 	Err     string           `json:"err,omitempty"`
+}
+
+// kind "race": the classic stale-set schedule.  A reader's database load of an uncached key starts (it reads v1)
+// BEFORE a write-with-invalidation Exec(v2) of that key and its SET lands AFTER it.  The operations overlap, so the
+// property's coherence clause does not speak about it; what it does promise still holds and is judged: the
+// entry the reader leaves has a finite TTL in its band, and once that has passed reads are fresh.
+type RaceObs struct {
+	Reader string  `json:"reader"` // what the overlapping reader returned
+	Exec   string  `json:"exec"`
+	After  []Entry `json:"after"` // store when both have returned
+	Next   string  `json:"next"`  // a later, non-overlapping read
+	NextQ  int     `json:"nextq"`
+	Late   string  `json:"late"` // a read after the entry's TTL has passed
+	LateQ  int     `json:"lateq"`
+}
+
+// kind "free": `readers` goroutines run `iters` random operations each (reads through the primary and the index key,
+// writes with invalidation, cache outages coming and going) on three rows of one connection, free-running.  Built with
+// -race in the thorough tier.  Operations overlap, so only what holds regardless is judged: never two database queries
+// of one key at the same time, every entry left is well-formed with a finite TTL, no panic, no data race.
+type FreeObs struct {
+	Ops     int            `json:"ops"`
+	MaxPar  map[string]int `json:"maxpar"` // per cache key: max number of its database queries in flight at once
+	Dump    []Entry        `json:"dump"`
+	Results map[string]int `json:"results"`
 }
 
 type ConcObs struct {
@@ -1217,9 +1247,10 @@ func runConc(c Case) Out {
 				db.mu.Lock()
 				lead := db.leader
 				db.mu.Unlock()
+				// what the reader received is recorded above; from here on the value is its caller's: every
+				// reader overwrites it (the leader first: the sharers are released only after that)
+				overwrite(row)
 				if i == lead {
-					// what the reader received is recorded above; from here on the value is its caller's
-					overwrite(row)
 					releaseOnce.Do(func() { close(hf.release) })
 				}
 			}
@@ -1295,6 +1326,205 @@ func runConc(c Case) Out {
 	return out
 }
 
+type keyGauge struct {
+	mu  sync.Mutex
+	cur map[string]int
+	max map[string]int
+}
+
+func (g *keyGauge) in(k string) {
+	g.mu.Lock()
+	g.cur[k]++
+	if g.cur[k] > g.max[k] {
+		g.max[k] = g.cur[k]
+	}
+	g.mu.Unlock()
+}
+
+func (g *keyGauge) out(k string) {
+	g.mu.Lock()
+	g.cur[k]--
+	g.mu.Unlock()
+}
+
+func runFree(c Case) Out {
+	out := Out{ID: c.ID}
+	setup(c)
+	reset()
+	var mu sync.Mutex
+	rows := map[int64]Row{1: {"1", 7, 0}, 2: {"2", 8, 0}}
+	g := &keyGauge{cur: map[string]int{}, max: map[string]int{}}
+	cc := newConn(c)
+	ctx := context.Background()
+	iters := c.Iters
+	if iters <= 0 {
+		iters = 50
+	}
+	results := map[string]int{}
+	var wg sync.WaitGroup
+	byPk := func(pk int64, v any) error {
+		k := "p" + strconv.FormatInt(pk, 10)
+		g.in(k)
+		defer g.out(k)
+		runtime.Gosched()
+		mu.Lock()
+		r, ok := rows[pk]
+		mu.Unlock()
+		if !ok {
+			return sqlx.ErrNotFound
+		}
+		return fill(v, r)
+	}
+	for i := 0; i < c.Readers; i++ {
+		wg.Add(1)
+		go func(i int) {
+			defer wg.Done()
+			rng := rand.New(rand.NewSource(int64(c.ID*1000 + i)))
+			for n := 0; n < iters; n++ {
+				pk := int64(1 + rng.Intn(3))
+				var err error
+				kind := ""
+				switch x := rng.Intn(100); {
+				case x < 55:
+					kind = "take"
+					row := newTarget()
+					err = cc.QueryRowCtx(ctx, row, "p"+strconv.FormatInt(pk, 10), func(ctx context.Context, conn sqlx.SqlConn, v any) error {
+						return byPk(pk, v)
+					})
+				case x < 75:
+					kind = "qri"
+					u := 6 + pk
+					row := newTarget()
+					err = cc.QueryRowIndexCtx(ctx, row, "u"+strconv.FormatInt(u, 10),
+						func(primary any) string { return "p" + fmt.Sprint(primary) },
+						func(ctx context.Context, conn sqlx.SqlConn, v any) (any, error) {
+							k := "u" + strconv.FormatInt(u, 10)
+							g.in(k)
+							defer g.out(k)
+							runtime.Gosched()
+							mu.Lock()
+							r, ok := rows[pk]
+							mu.Unlock()
+							if !ok {
+								return nil, sqlx.ErrNotFound
+							}
+							if e := fill(v, r); e != nil {
+								return nil, e
+							}
+							return pk, nil
+						},
+						func(ctx context.Context, conn sqlx.SqlConn, v, primary any) error {
+							n, e := strconv.ParseInt(fmt.Sprint(primary), 10, 64)
+							if e != nil {
+								return e
+							}
+							return byPk(n, v)
+						})
+				case x < 93:
+					kind = "exec"
+					_, err = cc.ExecCtx(ctx, func(ctx context.Context, conn sqlx.SqlConn) (sql.Result, error) {
+						mu.Lock()
+						if pk == 3 && rng.Intn(2) == 0 {
+							delete(rows, 3)
+						} else {
+							r := rows[pk]
+							rows[pk] = Row{strconv.FormatInt(pk, 10), 6 + pk, r.V + 1}
+						}
+						mu.Unlock()
+						return result{}, nil
+					}, "p"+strconv.FormatInt(pk, 10), "u"+strconv.FormatInt(6+pk, 10))
+				default:
+					kind = "outage"
+					nd := rng.Intn(c.Nodes)
+					servers[nd].SetError("ERR verif outage")
+					time.Sleep(time.Duration(rng.Intn(300)) * time.Microsecond)
+					servers[nd].SetError("")
+				}
+				mu.Lock()
+				results[kind+":"+classify(err, nil)]++
+				mu.Unlock()
+			}
+		}(i)
+	}
+	wg.Wait()
+	for n := 0; n < c.Nodes; n++ {
+		servers[n].SetError("")
+	}
+	settle()
+	out.Free = &FreeObs{Ops: c.Readers * iters, MaxPar: g.max, Dump: dump(c.Nodes), Results: results}
+	return out
+}
+
+func runRace(c Case) Out {
+	out := Out{ID: c.ID}
+	setup(c)
+	reset()
+	db := &fakeDB{rows: map[string]Row{}, mid: -1, leader: -1, errv: errDB, nf: sqlx.ErrNotFound}
+	pk := c.Pk
+	if pk == "" {
+		pk = "1"
+	}
+	db.rows[pk] = Row{pk, 7, 41}
+	cc := newConn(c)
+	ctx := context.Background()
+	entered, release := make(chan struct{}), make(chan struct{})
+	show := func(row any, err error) string {
+		if err != nil {
+			return classify(err, nil)
+		}
+		r := extract(row)
+		return fmt.Sprintf("row:%s:%d:%d", r.Pk, r.U, r.V)
+	}
+	ro := &RaceObs{}
+	done := make(chan struct{})
+	go func() {
+		defer close(done)
+		row := newTarget()
+		err := cc.QueryRowCtx(ctx, row, "p"+pk, func(ctx context.Context, conn sqlx.SqlConn, v any) error {
+			db.mu.Lock()
+			r := db.rows[pk] // the query's snapshot
+			db.qp++
+			db.mu.Unlock()
+			close(entered)
+			<-release
+			return fill(v, r)
+		})
+		ro.Reader = show(row, err)
+	}()
+	<-entered
+	_, err := cc.ExecCtx(ctx, func(ctx context.Context, conn sqlx.SqlConn) (sql.Result, error) {
+		if e := db.write(pk, true, 7, 42); e != nil {
+			return nil, e
+		}
+		return result{}, nil
+	}, "p"+pk, "u7")
+	ro.Exec = classify(err, nil)
+	close(release)
+	<-done
+	ro.After = dump(c.Nodes)
+	read := func() (string, int) {
+		db.qp = 0
+		row := newTarget()
+		err := cc.QueryRowCtx(ctx, row, "p"+pk, func(ctx context.Context, conn sqlx.SqlConn, v any) error {
+			return db.byPrimary(pk, true, v)
+		})
+		return show(row, err), db.qp
+	}
+	ro.Next, ro.NextQ = read()
+	var ttl int64
+	for _, e := range ro.After {
+		if e.TTL > ttl {
+			ttl = e.TTL
+		}
+	}
+	for n := 0; n < c.Nodes; n++ {
+		servers[n].FastForward(time.Duration(ttl+1) * time.Millisecond)
+	}
+	ro.Late, ro.LateQ = read()
+	out.Race = ro
+	return out
+}
+
 func main() {
 	logx.Disable()
 	var cases []Case
@@ -1318,7 +1548,11 @@ func main() {
 		if c.Nodes < 1 {
 			c.Nodes = 1
 		}
-		if c.Kind == "conc" || c.Kind == "concqri" {
+		if c.Kind == "free" {
+			w.Put(runFree(c))
+		} else if c.Kind == "race" {
+			w.Put(runRace(c))
+		} else if c.Kind == "conc" || c.Kind == "concqri" {
 			w.Put(runConc(c))
 		} else {
 			w.Put(runSeq(c))
